@@ -5,34 +5,34 @@ namespace FV
 
 def isPos : ReadEv → Bool
   | .deliver c => decide (0 < c)
-  | .fail => false
+  | .fail _ => false
 
 def posCount (evs : List ReadEv) : Nat := (evs.filter isPos).length
 
 /-- at least `n` positive deliveries; everything else in the script is a failing read -/
 def CoversF (evs : List ReadEv) (n : Nat) : Prop :=
-  n ≤ posCount evs ∧ ∀ ev ∈ evs, ev = .fail ∨ ∃ c, ev = .deliver c ∧ 0 < c
+  n ≤ posCount evs ∧ ∀ ev ∈ evs, (∃ k, ev = .fail k) ∨ ∃ c, ev = .deliver c ∧ 0 < c
 
 /-- `recv`, called again after every `Err(Read(_))` (at most `fuel` times); also counts the read errors seen -/
 def recvRetry (d : Dict) : Nat → List ReadEv → RBuf → Bytes → (RecvOut × RBuf × Bytes × List ReadEv) × Nat
   | 0, evs, b, rest => (recv d evs b rest, 0)
   | n+1, evs, b, rest =>
     match recv d evs b rest with
-    | (.readErr, b', rest', evs') => ((recvRetry d n evs' b' rest').1, (recvRetry d n evs' b' rest').2 + 1)
+    | (.readErr _, b', rest', evs') => ((recvRetry d n evs' b' rest').1, (recvRetry d n evs' b' rest').2 + 1)
     | r => (r, 0)
 
-theorem posCount_cons_fail (evs : List ReadEv) : posCount (.fail :: evs) = posCount evs := by simp [posCount, isPos]
+theorem posCount_cons_fail (evs : List ReadEv) (k : Nat) : posCount (.fail k :: evs) = posCount evs := by simp [posCount, isPos]
 theorem posCount_cons_pos (c : Nat) (hc : 0 < c) (evs : List ReadEv) : posCount (.deliver c :: evs) = posCount evs + 1 := by
   simp [posCount, isPos, hc]
 
 theorem recvRetry_of_not_readErr (d : Dict) (n : Nat) (evs : List ReadEv) (b : RBuf) (rest : Bytes)
-    (h : (recv d evs b rest).1 ≠ .readErr) : (recvRetry d n evs b rest).1 = recv d evs b rest := by
+    (h : ∀ k, (recv d evs b rest).1 ≠ .readErr k) : (recvRetry d n evs b rest).1 = recv d evs b rest := by
   cases n with
   | zero => rfl
   | succ n =>
     simp only [recvRetry]
     split
-    · rename_i b' rest' evs' heq; rw [heq] at h; exact absurd rfl h
+    · rename_i b' rest' evs' heq; rw [heq] at h; exact absurd rfl (h _)
     · rfl
 
 /-- **Head lemma with transient read errors.** -/
@@ -84,8 +84,9 @@ theorem recv_head_retry (d : Dict) (m : Bytes) (hm : IsMsg d m) :
       have hol : b1.occ.length = b.occ.length := by rw [ho]
       rcases hcov.2 ev (by simp) with hfail | ⟨c, hev, hc⟩
       · -- a failing read: `recv` returns the error, the caller calls again
+        obtain ⟨k, hfail⟩ := hfail
         subst hfail
-        have hr : recv d (.fail :: evs) b rest = (.readErr, b1, rest, evs) := by
+        have hr : recv d (.fail k :: evs) b rest = (.readErr k, b1, rest, evs) := by
           unfold recv
           simp only [hp, ne_eq, not_true_eq_false, if_false, readStep, hnoom, hsel]
         cases fuel with
@@ -158,8 +159,9 @@ theorem recvRetry_closed (d : Dict) (hmin : 0 < d.minSize) :
     have hw := hinv.within
     have hnoom : ¬ (b.start + b.occ.length = b.cap ∧ b.start = 0) := by simp [ho]; omega
     rcases hcov.2 ev (by simp) with hfail | ⟨c, hev, hc⟩
-    · subst hfail
-      have hr : recv d (.fail :: evs) b [] = (.readErr, compactB b, [], evs) := by
+    · obtain ⟨k, hfail⟩ := hfail
+      subst hfail
+      have hr : recv d (.fail k :: evs) b [] = (.readErr k, compactB b, [], evs) := by
         unfold recv compactB
         simp only [hp, ne_eq, not_true_eq_false, if_false, readStep, hnoom]
       cases fuel with
